@@ -16,11 +16,94 @@ ASSUMPTIONS = [
 ]
 # enableBLOB is not a self-loop (it changes the policy): it is the structural event "enable"
 KINDS = [k for k in G.ALL_TAGS if G.KINDS[k].origin in ("client", "both")]
+# the same kinds as they may arrive over the wire with an extra attribute that is named like one of the library's flags
+KINDS += ["newTextVector+from_device", "getProperties+from_client-empty", "newSwitchVector+from_device-empty", "getProperties+from_device-empty", "pingReply+from_device"]
 NSH = 16
 
 
 def shards(tier, seed):
-    return [(tier, i) for i in range(NSH)]
+    return [(tier, i) for i in range(NSH)] + [(tier, "reentrant")]
+
+
+def reentrant_scenarios(res, sig):
+    """a device that, while it is being handed a client's getProperties, submits a getProperties of its own through
+    its snooping client (as Driver.snoop_device does) - with equal or different content.  Both messages must be
+    routed by the rules, whatever is 'in flight'."""
+    import indi.message as M
+    from indi.routing import Client, Device, Router
+
+    for outer_dev, nested_dev, nclients, equal in [(o, n, k, e) for o in (None, "A") for n in (None, "A", "B") for k in (1, 2) for e in (True, False)]:
+        router = Router()
+        log = []
+
+        class RecClient(Client):
+            def __init__(self, name):
+                self.name = name
+
+            def message_from_device(self, message):
+                log.append(("c", self.name, id(message)))
+
+        class RecDev(Device):
+            def __init__(self, name, snoop=None):
+                self.name, self.snoop, self.done = name, snoop, False
+
+            def accepts(self, device):
+                return device is None or device == self.name
+
+            def message_from_client(self, message):
+                log.append(("d", self.name, id(message)))
+                if self.snoop is not None and not self.done and isinstance(message, M.GetProperties):
+                    self.done = True
+                    kw = dict(version="1.7", device=nested_dev) if not equal else dict(version="1.7", device=outer_dev)
+                    nested.append(M.GetProperties(**kw))
+                    router.process_message(nested[0], sender=self.snoop)
+
+        nested = []
+        S = RecClient("S")
+        devA, devB = RecDev("A", snoop=S), RecDev("B")
+        clients = [RecClient("c%d" % i) for i in range(nclients)]
+        for d in (devA, devB):
+            router.register_device(d)
+        for c in clients + [S]:
+            router.register_client(c)
+        outer = M.GetProperties(version="1.7", device=outer_dev)
+        exc = None
+        try:
+            router.process_message(outer, sender=clients[0])
+        except Exception as e:  # noqa
+            exc = e
+        res["transitions"] += 1
+        res["sends"] += 2
+        ndev = outer_dev if equal else nested_dev
+        want = []
+        for d in (devA, devB):
+            if d.accepts(outer_dev):
+                want.append(("d", d.name, "outer"))
+        for c in clients[1:] + [S]:
+            want.append(("c", c.name, "outer"))
+        if devA.accepts(outer_dev):  # the re-entrant device was reached: it sends its own request
+            for d in (devA, devB):
+                if d.accepts(ndev):
+                    want.append(("d", d.name, "nested"))
+            for c in clients:
+                want.append(("c", c.name, "nested"))
+        got = [(k, n, "outer" if mid == id(outer) else "nested") for k, n, mid in log]
+        rep = {"kind": "reentrant", "outer": outer_dev, "nested": nested_dev, "nclients": nclients, "equal": equal}
+        fails = []
+        if exc is not None:
+            from mc import lib
+
+            fails.append(("raises", "reentrant," + lib.exc_site(exc), repr(exc)))
+        elif sorted(got) != sorted(want):
+            missing = [w for w in want if w not in got]
+            why = "nested-dropped" if any(w[2] == "nested" for w in missing) else ("outer-dropped" if missing else "extra")
+            fails.append(("reentrant-delivery", "content=%s,%s" % ("equal" if equal else "different", why), "outer %r nested %r: deliveries %r, expected %r" % (outer_dev, ndev, sorted(got), sorted(want))))
+        for clause, disc, what in fails:
+            key = (clause, disc)
+            if key in sig:
+                sig[key]["count"] += 1
+            else:
+                sig[key] = {"clause": clause, "disc": disc, "what": what, "count": 1, "replay": rep}
 
 
 def check(model, ev, got, exc, exp):
@@ -35,11 +118,12 @@ def check(model, ev, got, exc, exp):
     gc = sorted(i for k, i in got if k == "c")
     fails = []
     kind = ev[1] if op == "send" else ("enableBLOB" if op == "enable" else op)
+    base_kind = kind.split("+")[0]
     if gd != sorted(to_dev):
         sender = ev[3] if op == "send" else ("c", ev[1]) if op == "enable" else None
         why = "to-sender" if sender and sender[0] == "d" and sender[1] in gd else ("missing" if len(gd) < len(to_dev) else "extra-or-duplicate")
         fails.append(("device-delivery", "kind=%s,%s" % (kind, why), "%r: devices got %r, expected %r" % (ev, gd, sorted(to_dev))))
-    if op == "send" and kind != "getProperties":
+    if op == "send" and base_kind != "getProperties":
         if gc:
             fails.append(("forwarded-to-clients", "kind=%s" % kind, "%r: clients got %r, expected none" % (ev, gc)))
     elif op == "send":
@@ -57,6 +141,12 @@ def check(model, ev, got, exc, exp):
 
 def run_shard(shard):
     tier, idx = shard
+    if idx == "reentrant":
+        res = {"capped": 0, "states": 0, "transitions": 0, "sends": 0, "deliveries": 0, "nondeliveries": 0, "violations": [], "samples": [], "counters": {}}
+        sig = {}
+        reentrant_scenarios(res, sig)
+        res["violations"] = list(sig.values())
+        return res
     n = 2 if tier == "quick" else 3
     st = R.explore(n, KINDS, check, idx, NSH)
     return pack(st, n, idx)
@@ -102,6 +192,11 @@ def _t(x):
 
 
 def replay(rep, chk=None):
+    if rep.get("kind") == "reentrant":
+        res = {"transitions": 0, "sends": 0}
+        sig = {}
+        reentrant_scenarios(res, sig)
+        return [{"clause": v["clause"], "disc": v["disc"], "what": v["what"]} for v in sig.values()]
     chk = chk or check
     path = [_t(e) for e in rep["path"]]
     s, m = R.build(path[:-1], rep["nclients"])
